@@ -15,7 +15,16 @@ pub struct Utc(pub(crate) Duration);
 
 impl std::fmt::Debug for Utc {
     fn fmt(&self, f: &mut std::fmt::Formatter) -> std::fmt::Result {
-        (std::time::SystemTime::UNIX_EPOCH + self.0).fmt(f)
+        // `SystemTime + Duration` panics on overflow.
+        let t = if self.0.is_negative() {
+            std::time::SystemTime::UNIX_EPOCH.checked_sub(self.0.unsigned_abs())
+        } else {
+            std::time::SystemTime::UNIX_EPOCH.checked_add(self.0.unsigned_abs())
+        };
+        match t {
+            Some(t) => t.fmt(f),
+            None => write!(f, "Utc({}s since unix epoch)", self.0.whole_seconds()),
+        }
     }
 }
 
